@@ -155,3 +155,20 @@ package main
 //@   requires [C09] t.lastID >= 0 && ((asUid in t.perUser) ==> 0 <= t.perUser[asUid].readID && t.perUser[asUid].readID <= t.lastID && 0 <= t.perUser[asUid].recvID && t.perUser[asUid].recvID <= t.lastID)
 //@   assert at call queueOut [C09] reported_marks: $1 != nil && $1.Meta != nil && $1.Meta.Desc != nil ==> 0 <= $1.Meta.Desc.ReadSeqId && $1.Meta.Desc.ReadSeqId <= $1.Meta.Desc.RecvSeqId && $1.Meta.Desc.RecvSeqId <= $1.Meta.Desc.SeqId
 //@   modifies *
+
+// ---------------------------------------------------------------------------------------------
+// Detaching: after a user is evicted no (non-multiplexing) session attached to the topic acts for that user -
+// including the session that issued the request (it is only spared the "evicted" notice).
+// ---------------------------------------------------------------------------------------------
+//@ func (t *Topic) remSession(sess *Session, asUid types.Uid) (pssd *perSessionData, removed bool)
+//@   requires [C03] t != nil
+//@   modifies t.sessions[*], heap("elem<types.Uid>")
+//@   ensures [C03] gone:    sess != nil && sess.multi == nil ==> !((sess in t.sessions) && t.sessions[sess].uid == asUid)
+//@   ensures [C03] no_new:  forall s *Session :: (s in t.sessions) ==> old(s in t.sessions) && t.sessions[s].uid == old(t.sessions[s].uid)
+
+//@ func (t *Topic) evictUser(uid types.Uid, unsub bool, skip string)
+//@   requires [C03] t != nil
+//@   ensures [C03] detached: forall s *Session :: (s in t.sessions) && s != nil && s.multi == nil ==> t.sessions[s].uid != uid
+//@   modifies *
+//@   loop 1
+//@     invariant seen_clean: forall s *Session :: #seen[s] && (s in t.sessions) && s != nil && s.multi == nil ==> t.sessions[s].uid != uid
